@@ -45,7 +45,90 @@ def gen_case(rng, maxops):
             ops.append('z%d' % rng.choice([0, 0, 1, 2, 3, len(live), len(live) + 1, 9, 20, 47]))
             if ops[-1] == 'z0': live.clear()
         else: ops.append('c')
+    if rng.random() < .5:
+        ops += [rng.choice('gm') + str(k) for k in keys[:12]]      # probe sequences of all keys
     return hs + '|' + ' '.join(ops)
+
+
+# item counts for which Table keeps exactly n slots (Resize_More / Resize_Less thresholds of the
+# generated prime table and load factor): inside the band no rehash interferes with the cluster
+BAND = {5: (1, 4), 11: (5, 9), 23: (10, 20)}
+
+
+def gen_dense(rng, maxops):
+    """Clusters at (nearly) full load in a table of fixed size: homes drawn from a window of 1-4
+    adjacent slots placed anywhere (also across the array end), then set/rem churn at constant
+    count.  Aims at the case splits of the proofs: displacement chains with equal and unequal
+    probe distances, backward shift across the wrap, lookups stopped by the distance test."""
+    n = rng.choice([5, 5, 11, 11, 23])
+    lo, hi = BAND[n]
+    nk = hi + rng.choice([1, 2, 3])
+    w, width = rng.randrange(n), rng.choice([1, 2, 2, 3, 4])
+    hm = {}
+    for k in range(nk):
+        home = (w + rng.randrange(width)) % n if rng.random() < .85 else rng.randrange(n)
+        hm[k] = home + n * rng.choice([0, 0, 1, 7, LCM_SMALL, 2**40])
+    hs = ','.join('%d:%d' % kv for kv in hm.items())
+    keys = list(range(nk))
+    rng.shuffle(keys)
+    target = rng.randrange(max(lo, hi - 2), hi + 1)
+    live, ops = [], []
+    for k in keys[:target]:
+        ops.append('s%d,%d' % (k, rng.randrange(100))); live.append(k)
+    dead = keys[target:]
+    for _ in range(rng.randrange(2, maxops)):
+        r = rng.random()
+        if r < .40 and live and len(live) > lo:
+            k = live.pop(rng.randrange(len(live))); dead.append(k); ops.append('r%d' % k)
+        elif r < .75 and dead and len(live) < hi:
+            k = dead.pop(rng.randrange(len(dead))); live.append(k); ops.append('s%d,%d' % (k, rng.randrange(100)))
+        elif r < .85 and live:
+            ops.append('s%d,%d' % (rng.choice(live), rng.randrange(100)))       # update in place
+        elif r < .93:
+            ops.append(rng.choice('gm') + str(rng.choice(keys)))
+        elif r < .96:
+            ops.append('c')
+        else:
+            ops.append('z%d' % rng.choice([len(live), hi, hi + 1]))
+            if ops[-1] == 'z%d' % (hi + 1) and n != 23: break    # table grows: leave the band, stop
+    # look every key up at the end: the iteration in the harness's dump reaches values through
+    # Table_Get's pointer-into-the-table shortcut, so only explicit get/mem walk the probe sequence
+    ops += ['g%d' % k for k in keys]
+    return hs + '|' + ' '.join(ops)
+
+
+def continuations(rng, case, count, maxops=25):
+    """Directed search around a case on which model and implementation differ: keep its hash
+    script and operations, continue with set/rem/get/mem over its keys and over new keys whose
+    homes are next to the existing ones (a structural difference of the slot array becomes a
+    lost or duplicated key once the cluster is probed and reshuffled)."""
+    hs, ops = case.split('|', 1)
+    toks = [t for t in ops.split(' ') if t]
+    out = []
+    if hs == 'id':
+        keys = sorted({int(t[1:].split(',')[0]) for t in toks if t[0] in 'srgm'}) or [0]
+        extra = [k + d * m for k in keys[:6] for d in (1, -1) for m in (5, 11, 23, 55, 253)]
+        extra = [k for k in extra if -2**63 <= k < 2**63]
+        pool, spec = keys + extra, 'id'
+    else:
+        hm = dict((int(a), int(b)) for a, b in (kv.split(':') for kv in hs.split(',') if kv))
+        keys = list(hm)
+        nxt = max(keys + [0]) + 1
+        for h in list(hm.values())[:8]:
+            for d in (0, 0, 1, -1):
+                hm[nxt] = max(0, h + d); nxt += 1
+        pool, spec = list(hm), ','.join('%d:%d' % kv for kv in hm.items())
+    for _ in range(count):
+        cut = rng.randrange(max(1, len(toks) - 3), len(toks) + 1) if rng.random() < .5 else len(toks)
+        t = toks[:cut]
+        for _ in range(rng.randrange(1, maxops)):
+            r, k = rng.random(), rng.choice(pool)
+            if r < .5: t.append('s%d,%d' % (k, rng.randrange(100)))
+            elif r < .8: t.append('r%d' % k)
+            else: t.append(rng.choice('gm') + str(k))
+        t += ['g%d' % k for k in pool[:12]]
+        out.append(spec + '|' + ' '.join(t))
+    return out
 
 
 def parse(line):
@@ -115,19 +198,52 @@ CORPUS = [
 ]
 
 
+def small_scope(nkeys=3, nslots=5, maxlen=5):
+    """Bounded exhaustive search (thorough tier), for every assignment of home slots in a table of
+    `nslots` slots up to renaming of the keys:
+      (a) every sequence of exactly `maxlen` set/rem operations over `nkeys` keys (all shorter
+          sequences are its prefixes and every step is compared) — rem of an absent key included;
+      (b) every sequence of `maxlen`+1 operations in which rem is only applied to a present key.
+    Each is followed by get and mem of every key."""
+    import itertools
+    alphabet = ['s%d' % k for k in range(nkeys)] + ['r%d' % k for k in range(nkeys)]
+    probe = ' '.join(['g%d' % k for k in range(nkeys)] + ['m%d' % k for k in range(nkeys)])
+
+    def valid(live, depth, acc, out):
+        if depth == maxlen + 1:
+            out.append(tuple(acc)); return
+        for k in range(nkeys):
+            acc.append('s%d' % k); valid(live | {k}, depth + 1, acc, out); acc.pop()
+            if k in live:
+                acc.append('r%d' % k); valid(live - {k}, depth + 1, acc, out); acc.pop()
+    longer = []
+    valid(frozenset(), 0, [], longer)
+    for homes in itertools.combinations_with_replacement(range(nslots), nkeys):
+        hs = ','.join('%d:%d' % (k, h) for k, h in enumerate(homes))
+        for seq in itertools.chain(itertools.product(alphabet, repeat=maxlen), longer):
+            ops = ' '.join(o + (',%d' % i if o[0] == 's' else '') for i, o in enumerate(seq))
+            yield hs + '|' + ops + ' ' + probe
+
+
 def run(ctx):
     quick = ctx.tier == 'quick'
     ctx.cov['rule'] = ('seeded operation sequences (set/rem/get/mem/resize/copy/new-with-pairs) over 2-20 keys with scripted '
                        'hashes (all-equal, multiples of 5*11*23*53*101, clusters ending at the last slot, small, 64-bit extremes) and '
-                       'Int keys (identity hash); a case is non-trivial when at least one entry sits away from its home slot '
-                       '(displacement happened); distinct = distinct implementation transcripts')
+                       'Int keys (identity hash); a second stream ("dense") fills a table of 5, 11 or 23 slots to the highest count '
+                       'that keeps its size, with homes drawn from a window of 1-4 adjacent slots (anywhere, also across the array end), '
+                       'then removes and re-inserts at constant count, so that displacement chains, backward shifts across the wrap and '
+                       'distance-stopped lookups occur in most cases, and ends with a get of every key (present or not); a case is non-trivial when at least one entry sits away from its '
+                       'home slot (displacement happened); distinct = distinct implementation transcripts; every step of every case '
+                       'compares outcome, len and the iterated bindings with the finite map (oracle) and the whole slot array with the '
+                       'extracted model (correspondence)')
     ctx.assumptions += ['C text tied by correspondence only: extracted Gallina model vs library built from the working tree, '
                         'white-box slot arrays compared after every operation',
                         'double arithmetic of Table_Ideal_Size modelled as floor((n+1)*10/9)']
     ctx.coq()
     drv = ctx.build_driver('Table')
     h = ctx.build_harness('table_wb.c', whitebox='Table')
-    run_impl = lambda cs: ctx.run_lines(h, cs)[1]
+    henv = dict(os.environ, H_TIMEOUT='3')       # a case takes microseconds; a hang is an observation
+    run_impl = lambda cs: ctx.run_lines(h, cs, env=henv, timeout=3000)[1]
     run_model = lambda cs: ctx.run_lines(drv, cs, args=['model'])[1]
     run_spec = lambda cs: ctx.run_lines(drv, cs, args=['spec'])[1]
     d = vlib.Differential(ctx, 'table', run_impl, run_model, run_spec, oracle, corr, nontrivial, split, join)
@@ -139,13 +255,54 @@ def run(ctx):
             print('REPLAY: %s\n  impl  %s\n  model %s\n  spec  %s' % (x[4], x[1], x[2], x[3]))
         d.report()
         return
+
+    def feed_all(cases, chunk=250):
+        """chunked (first chunks small), stops as soon as the property has failed on a concrete
+        input: a change that makes the library hang would otherwise cost the per-case watchdog
+        thousands of times"""
+        i, step = 0, 25
+        while i < len(cases):
+            if d.oracle_fail:
+                return False
+            d.feed(cases[i:i + step])
+            i += step
+            step = min(chunk, step * 2)
+        return not d.oracle_fail
+
     d.feed(CORPUS, 'corpus')
-    n = 1500 if quick else 60000
+    n = 1500 if quick else 40000
     maxops = 60 if quick else 120
     cases = [gen_case(ctx.rng, maxops if i % 3 else 12) for i in range(n)]
-    for i in range(0, n, 2000):
-        d.feed(cases[i:i + 2000])
+    dense = [gen_dense(ctx.rng, 40 if quick else 80) for i in range(n)]
+    ctx.cov['streams'] = {'mixed': n, 'dense': n, 'corpus': len(CORPUS)}
+    ok = feed_all(cases) and feed_all(dense)
+    if ok and not quick:
+        t0 = __import__('time').time()
+        cnt = 0; buf = []
+        for c in small_scope():
+            buf.append(c); cnt += 1
+            if len(buf) >= 5000:
+                if not feed_all(buf, 5000): break
+                buf = []
+        if buf: feed_all(buf, 5000)
+        ctx.cov['exhaustive_small_scope'] = {
+            'kind': 'bounded search (not a proof): validates the model against the library and looks for failing inputs',
+            'scope': 'all sequences of 5 set/rem operations (every prefix compared step by step; rem of absent keys included) and all '
+                     'sequences of 6 set/rem operations in which rem hits a present key, over 3 keys, for all 35 assignments of home '
+                     'slots in a 5-slot table up to renaming of keys, each followed by get and mem of every key',
+            'cases': cnt, 'oracle_failures': len(d.oracle_fail), 'correspondence_failures': len(d.corr_fail),
+            'wall_s': round(__import__('time').time() - t0, 1)}
 
     def extra(dd):
-        dd.feed([gen_case(ctx.rng, 40) for _ in range(10 * min(n, 3000))])
+        # directed search: continue the disagreeing cases, then fresh dense and mixed streams
+        seeds = [x[0] for x in dd.corr_fail[:40]]
+        conts = [c for s0 in seeds for c in continuations(ctx.rng, s0, 60)]
+        dd.feed(conts[:250])
+        if len(dd.oracle_fail) > 0: return
+        for i in range(250, len(conts), 500):
+            dd.feed(conts[i:i + 500])
+            if dd.oracle_fail: return
+        for _ in range(10):
+            dd.feed([gen_dense(ctx.rng, 60) for _ in range(1000)] + [gen_case(ctx.rng, 40) for _ in range(500)])
+            if dd.oracle_fail: return
     d.report(extra)
